@@ -13,6 +13,7 @@ import (
 	"cuelang.org/go/internal/mod/mvs"
 	"cuelang.org/go/internal/mod/semver"
 	"cuelang.org/go/internal/par"
+	"cuelang.org/go/internal/simhook"
 	"cuelang.org/go/mod/modfile"
 	"cuelang.org/go/mod/modregistry"
 	"cuelang.org/go/mod/module"
@@ -231,10 +232,17 @@ func (rs *Requirements) RootModules() []module.Version {
 // If the requirements of any relevant module fail to load, Graph also
 // returns a non-nil error of type *mvs.BuildListError.
 func (rs *Requirements) Graph(ctx context.Context) (*ModuleGraph, error) {
+	modelled := simhook.Enabled && rs.graph.Load() == nil
+	if modelled {
+		simhook.Acquire("modrequirements.Graph", rs)
+	}
 	rs.graphOnce.Do(func() {
 		mg, mgErr := rs.readModGraph(ctx)
 		rs.graph.Store(&cachedGraph{mg, mgErr})
 	})
+	if modelled {
+		simhook.Release("modrequirements.Graph", rs)
+	}
 	cached := rs.graph.Load()
 	return cached.mg, cached.err
 }
